@@ -53,7 +53,7 @@ CLAIMED['C06'] = (
     'integers, mode, invalid_values) are chosen by the solver; both strategies run on the same input and must give equal '
     'data or, on failure, equal collected (error class, item) sets; path trees are exhausted per declaration x group.',
     'a differential oracle needs no expected values; combinations of option groups and non-int field types are outside the '
-    'bounds; known finding K-C06-several-spellings-differing is reported, not hidden',
+    'bounds; known findings K-C06-distinct-aliases-* are reported, not hidden',
     'symbolic execution of the real code (CrossHair primitives + z3), differential assertion, path-tree exhaustion, concrete replay')
 CLAIMED['C05'] = (
     'Bounded symbolic model checking of BaseParser.parse_data / ClassParser init / Schema views against a reference model '
